@@ -652,6 +652,16 @@ impl<T: ?Sized + ::std::fmt::Debug> ::std::fmt::Debug for MutexGuard<'_, T> {
 // Condvar
 // ===========================================================================
 
+/// `std`'s result type has no public constructor.
+#[derive(Debug, PartialEq, Eq, Copy, Clone)]
+pub struct WaitTimeoutResult(bool);
+
+impl WaitTimeoutResult {
+    pub fn timed_out(&self) -> bool {
+        self.0
+    }
+}
+
 pub struct Condvar {
     meta: Meta,
     inner: real::Condvar,
@@ -714,6 +724,91 @@ impl Condvar {
                     lock,
                     inner: Some(p.into_inner()),
                 })),
+            }
+        }
+    }
+
+    /// Simulated threads have no timers: a timed wait that finds no
+    /// notification pending gives the other threads a turn (a scheduling
+    /// point with the yield flag set) and then reports a time-out — unless a
+    /// notification arrived in between. A legal behaviour of the real
+    /// primitive for every duration (time-outs may be arbitrarily early with
+    /// respect to other threads' progress).
+    pub fn wait_timeout<'a, T>(
+        &self,
+        mut guard: MutexGuard<'a, T>,
+        dur: ::std::time::Duration,
+    ) -> LockResult<(MutexGuard<'a, T>, WaitTimeoutResult)> {
+        if let Some((s, me)) = sim::ctx() {
+            let mutex = guard.lock;
+            let (obj, ticket) = {
+                let mut st = s.lock();
+                let obj = self.model_obj(&mut st, s.epoch);
+                let Obj::Cond { next_ticket, waiting, .. } = &mut st.objects[obj as usize] else {
+                    unreachable!()
+                };
+                let t = *next_ticket;
+                *next_ticket += 1;
+                waiting.push(t);
+                st.tick(me);
+                st.log(me, Ev::CondWait { obj });
+                (obj, t)
+            };
+            drop(guard);
+            let timed_out = s.op(me, |st| {
+                let Obj::Cond { notified, waiting, vc, .. } = &mut st.objects[obj as usize] else {
+                    unreachable!()
+                };
+                if let Some(p) = notified.iter().position(|&t| t == ticket) {
+                    notified.remove(p);
+                    let vc = *vc;
+                    st.threads[me].vc.join(&vc);
+                    Step::Done(false)
+                } else {
+                    waiting.retain(|&t| t != ticket);
+                    st.threads[me].yielded = true;
+                    Step::Done(true)
+                }
+            });
+            match mutex.lock() {
+                Ok(g) => Ok((g, WaitTimeoutResult(timed_out))),
+                Err(p) => Err(PoisonError::new((p.into_inner(), WaitTimeoutResult(timed_out)))),
+            }
+        } else {
+            let lock = guard.lock;
+            let inner = guard.inner.take().unwrap();
+            ::std::mem::forget(guard);
+            match self.inner.wait_timeout(inner, dur) {
+                Ok((g, r)) => Ok((MutexGuard { lock, inner: Some(g) }, WaitTimeoutResult(r.timed_out()))),
+                Err(p) => {
+                    let (g, r) = p.into_inner();
+                    Err(PoisonError::new((MutexGuard { lock, inner: Some(g) }, WaitTimeoutResult(r.timed_out()))))
+                }
+            }
+        }
+    }
+
+    pub fn wait_timeout_while<'a, T, F>(
+        &self,
+        mut guard: MutexGuard<'a, T>,
+        dur: ::std::time::Duration,
+        mut condition: F,
+    ) -> LockResult<(MutexGuard<'a, T>, WaitTimeoutResult)>
+    where
+        F: FnMut(&mut T) -> bool,
+    {
+        loop {
+            if !condition(&mut *guard) {
+                return Ok((guard, WaitTimeoutResult(false)));
+            }
+            let (g, r) = match self.wait_timeout(guard, dur) {
+                Ok(x) => x,
+                Err(p) => return Err(p),
+            };
+            guard = g;
+            if r.timed_out() {
+                let still = condition(&mut *guard);
+                return Ok((guard, WaitTimeoutResult(still)));
             }
         }
     }
